@@ -1603,6 +1603,17 @@ func c02Routing(c *Ctx, ro *c02Roles) {
 							}
 						}
 					}
+					// the store made by a module helper that is handed the result and the error (`recordFailure(result, err)`): the
+					// helper stores that very parameter into the Error field of a validation result on every path
+					if call, ok := in.(*ssa.Call); ok && labelHas(sfi.GuardsOf(call), "NE("+errD+",nil)") {
+						if g := staticCallee(call); g != nil && g.Blocks != nil && w.IsProductFn(g) {
+							for i, a := range call.Call.Args {
+								if desc(a) == errD && i < len(g.Params) && c02StoresParamIntoError(g, g.Params[i]) {
+									okStore = true
+								}
+							}
+						}
+					}
 				}
 			}
 			c.Check(okStore, "routing/identity-result", "the native identity check's error is stored into the authenticity result (then gated)", w.InstrPos(idCall), "the error of the native identity check is dropped")
@@ -2125,4 +2136,31 @@ func c02Enumerator(c *Ctx, F *ssa.Function) {
 func c02RangesExtendedVia(w *World, v ssa.Value, E *ssa.Function) bool {
 	c := callOf(v)
 	return c != nil && staticCallee(c) == E
+}
+
+// c02StoresParamIntoError: g stores its parameter p into the Error field of a validation result, in a block every path
+// through g passes (the entry block, or one that dominates every Return).
+func c02StoresParamIntoError(g *ssa.Function, p *ssa.Parameter) bool {
+	for _, b := range g.Blocks {
+		for _, in := range b.Instrs {
+			st, ok := in.(*ssa.Store)
+			if !ok || st.Val != ssa.Value(p) {
+				continue
+			}
+			fa, ok := st.Addr.(*ssa.FieldAddr)
+			if !ok || !isVRPtr(fa.X.Type()) || fieldName(fa.X.Type(), fa.Field) != "Error" {
+				continue
+			}
+			all := true
+			for _, rb := range g.Blocks {
+				if _, isRet := blockTerm(rb).(*ssa.Return); isRet && !(b == rb || b.Dominates(rb)) {
+					all = false
+				}
+			}
+			if all {
+				return true
+			}
+		}
+	}
+	return false
 }
